@@ -330,8 +330,24 @@ func armStackHooks(g *rng.R) {
 		verifhook.QueueReceiveAfterFn, verifhook.FragAfterAddPart, verifhook.MbappAfterAddPart, verifhook.P2pkeSwarmAfterDeliver, verifhook.ChannelBeforeSend})
 }
 
+// c01WrongIdentity: "to whom it was told" on stacks whose addresses carry an identity: after honest all-pairs traffic a Tell to
+// identity X at node Y's transport address must not be handed to Y.
+func c01WrongIdentity(r *ev.Run, g *rng.R) {
+	idx := 5000
+	for _, sf := range secureStacks(isThorough(r)) {
+		if sf.Name != "p2pke(mem)" && sf.Name != "quic(mem)" && sf.Name != "p2pke(udp)" {
+			continue
+		}
+		idx++
+		caseID := "wrong-identity-" + sf.Name
+		if r.Mine(idx) && r.Want(caseID) {
+			c04HonestAs(r, sf, g.Fork(), caseID, "C01")
+		}
+	}
+}
+
 func runC01(r *ev.Run) {
-	r.Rule = "per stack: 3 nodes, several concurrent senders and receivers per node, all pairs, payload lengths {0,1,2,3,15..19,31..33,63..65, fragment boundaries +-1, MTU-1, MTU} plus random, IOVecs of 1-5 segments, replies to the observed source address (half from inside the callback), seeded delays at hook points; every delivered payload is looked up (sha256) in a ledger of unique self-describing payloads: must have been told to this receiver, Src must name the teller, Dst the receiver; callback buffers are checksummed and scribbled (0xDD), sender buffers compared and overwritten (0xEE) after Tell. Losses and duplicates are counted, not judged. non-trivial = a delivery observed and matched; distinct = (stack, length class)"
+	r.Rule = "per stack: 3 nodes, several concurrent senders and receivers per node, all pairs, payload lengths {0,1,2,3,15..19,31..33,63..65, fragment boundaries +-1, MTU-1, MTU} plus random, IOVecs of 1-5 segments, replies to the observed source address (half from inside the callback), seeded delays at hook points; every delivered payload is looked up (sha256) in a ledger of unique self-describing payloads: must have been told to this receiver, Src must name the teller, Dst the receiver; callback buffers are checksummed and scribbled (0xDD), sender buffers compared and overwritten (0xEE) after Tell. Losses and duplicates are counted, not judged. On stacks whose addresses carry an identity, a Tell to identity X at node Y's transport address must not reach Y. non-trivial = a delivery observed and matched; distinct = (stack, length class)"
 	stacks := allStacks()
 	g := rng.New(r.Seed, "C01", fmt.Sprint(r.Batch))
 	idx := 0
@@ -391,4 +407,5 @@ func runC01(r *ev.Run) {
 			}
 		}
 	}
+	c01WrongIdentity(r, g)
 }
